@@ -74,6 +74,11 @@ type Config struct {
 	NumSites    int
 	Replay      []Segment // replay mode when Active && ReplayMode
 	ReplayMode  bool
+	// Free: free-running mode for library code that starts goroutines or blocks on
+	// channels (no seam for those): tasks are plain goroutines running truly in
+	// parallel, Yield only calls runtime.Gosched now and then. The race and
+	// equivalence oracles still apply; the schedule is not owned, hence not replayable.
+	Free bool
 }
 
 // Stats of one run.
@@ -91,9 +96,11 @@ type Stats struct {
 }
 
 type state struct {
-	active   bool
-	counting bool
-	ycount   int64 // yields seen while inactive & counting (baseline)
+	free      bool
+	freeCount uint32
+	active    bool
+	counting  bool
+	ycount    int64 // yields seen while inactive & counting (baseline)
 
 	cfg      Config
 	n        int32
@@ -189,6 +196,9 @@ func SetCounting(on bool) { st.counting = on }
 //
 //go:norace
 func Count() int64 {
+	if st.free {
+		return 0
+	}
 	if st.active {
 		return st.tyields[st.cur]
 	}
@@ -198,7 +208,7 @@ func Count() int64 {
 // Active reports whether a simulation is running.
 //
 //go:norace
-func Active() bool { return st.active }
+func Active() bool { return st.active || st.free }
 
 // Cur returns the running task id (simulation only).
 //
@@ -209,6 +219,19 @@ func Cur() int32 { return st.cur }
 //
 //go:norace
 func Yield(site uint32) {
+	if st.free {
+		// benignly racy counter (this function is not instrumented); any goroutine,
+		// including ones the library started itself, may come through here
+		n := st.freeCount
+		st.freeCount = n + 1
+		if int(site) < len(st.siteExec) && st.siteExec[site] != ^uint32(0) {
+			st.siteExec[site]++
+		}
+		if n%7 == 0 {
+			runtime.Gosched()
+		}
+		return
+	}
 	if !st.active {
 		if st.counting {
 			st.ycount++
@@ -313,6 +336,9 @@ func IsRunaway(v interface{}) bool {
 //
 //go:norace
 func ArmLimit(n int64) {
+	if st.free {
+		return
+	}
 	if st.active {
 		if n <= 0 {
 			st.opLimit[st.cur] = 0
@@ -556,7 +582,7 @@ func switchOut(site uint32, blocked bool) {
 //
 //go:norace
 func YieldBlocked() {
-	if !st.active {
+	if !st.active || st.free {
 		runtime.Gosched()
 		return
 	}
@@ -594,6 +620,9 @@ func taskDone() {
 
 //go:norace
 func parkSelf(i int) { rawRead(st.rfd[i]) }
+
+//go:norace
+func setFree(on bool) { st.free = on }
 
 //go:norace
 func begin(cfg *Config, n int) error {
@@ -687,6 +716,21 @@ func Run(cfg *Config, bodies []func()) (Stats, error) {
 	if n == 0 || n > MaxTasks {
 		return out, syscall.EINVAL
 	}
+	if cfg.Free {
+		var wg sync.WaitGroup
+		wg.Add(n)
+		setFree(true)
+		for i := 0; i < n; i++ {
+			body := bodies[i]
+			go func() {
+				defer wg.Done()
+				body()
+			}()
+		}
+		wg.Wait()
+		setFree(false)
+		return out, nil
+	}
 	if err := begin(cfg, n); err != nil {
 		return out, err
 	}
@@ -763,10 +807,20 @@ func UnlockSeam(unlock func()) {
 }
 
 //go:norace
-func lockDelta(d int32) { st.lockDepth[st.cur] += d }
+func lockDelta(d int32) {
+	if st.free {
+		return
+	}
+	st.lockDepth[st.cur] += d
+}
 
 //go:norace
-func noPreempt(d int32) { st.nopre += d }
+func noPreempt(d int32) {
+	if st.free {
+		return
+	}
+	st.nopre += d
+}
 
 // OnceDo replaces once.Do(f): the body runs with pre-emption disabled so that
 // no other task can block on the Once's internal mutex while we are parked.
